@@ -154,25 +154,32 @@ impl PersistentStorage {
     pub open spec fn owned_by(entries: Seq<(Seq<u8>, Seq<u8>)>, j: int, tenant: &str) -> bool {
         0 <= j < entries.len() && starts_with(entries[j].0, prefix_of(tenant_bytes(tenant)))
     }
+    /// the returned node with id `got` was decoded from some entry of the scan that carries the tenant's prefix
+    pub open spec fn node_has_source(entries: Seq<(Seq<u8>, Seq<u8>)>, tenant: &str, got: u64) -> bool {
+        exists|j: int| #[trigger] Self::owned_by(entries, j, tenant) && got == decode_bytes::<StoredNode>(entries[j].1).id
+    }
+    pub open spec fn edge_has_source(entries: Seq<(Seq<u8>, Seq<u8>)>, tenant: &str, got: u64) -> bool {
+        exists|j: int| #[trigger] Self::owned_by(entries, j, tenant) && got == decode_bytes::<StoredEdge>(entries[j].1).id
+    }
 
 //@fn PersistentStorage::scan_nodes ret=r
 //@ensures
         r matches Ok(nodes) ==> forall|i: int| 0 <= i < nodes@.len() ==>
-            #[trigger] Self::owned_by(db_entries(&self.db, "nodes", prefix_of(tenant_bytes(tenant))), i, tenant),    //#only_entries_with_the_tenant_prefix
-        r matches Ok(nodes) ==> forall|i: int| 0 <= i < nodes@.len() ==>
-            (#[trigger] nodes@[i]).id.0 == decode_bytes::<StoredNode>(db_entries(&self.db, "nodes", prefix_of(tenant_bytes(tenant)))[i].1).id,    //#decoded_from_those_entries
-//@replace "format!(\"{}:\", tenant)" => "scan_prefix(tenant)" :: format! has no byte-level meaning in Verus; the wrapper's body is the same expression, its result (tenant bytes then ':') is assumed here and checked by Kani
+            Self::node_has_source(db_entries(&self.db, "nodes", prefix_of(tenant_bytes(tenant))), tenant, (#[trigger] nodes@[i]).id.0),    //#only_entries_with_the_tenant_prefix
+//@replace "format!(\"{}:\", tenant)" => "scan_prefix(tenant)" :: format! has no byte-level meaning in Verus; the wrapper's body is the same expression, its result (tenant bytes then ':') is assumed (A-STR)
 //@replace "let mut nodes = Vec::new();" => "let mut nodes: Vec<Node> = Vec::new();" :: type annotation only (the invariant mentions the element type before the first push fixes it)
 //@closure ok_or_else#1 () -> (e: StorageError)
+//@before "let iter = self.db.prefix_iterator_cf"
+        let ghost mut idx: Seq<int> = Seq::empty();   // ghost: which entry each returned element was decoded from
 //@loop 1 desugar=iter2
-            invariant_except_break
-                nodes@.len() == iter2.pos(),                                                                          //#one_node_per_consumed_entry
             invariant
                 iter2.entries() == db_entries(&self.db, "nodes", prefix_of(tenant_bytes(tenant))),                  //#iter_fixed
                 prefix.as_bytes_spec() == prefix_of(tenant_bytes(tenant)),                                           //#prefix_fixed
-                nodes@.len() <= iter2.pos() && iter2.pos() <= iter2.entries().len(),                                  //#at_most_one_node_per_entry
-                forall|i: int| 0 <= i < nodes@.len() ==> #[trigger] Self::owned_by(iter2.entries(), i, tenant),     //#all_owned
-                forall|i: int| 0 <= i < nodes@.len() ==> (#[trigger] nodes@[i]).id.0 == decode_bytes::<StoredNode>(iter2.entries()[i].1).id,   //#all_decoded
+                iter2.pos() <= iter2.entries().len(),                                                                 //#pos_in_range
+                idx.len() == nodes@.len(),                                                                         //#one_witness_per_element
+                forall|i: int| 0 <= i < idx.len() ==> 0 <= #[trigger] idx[i] < iter2.pos(),                           //#witness_consumed
+                forall|i: int| 0 <= i < idx.len() ==> Self::owned_by(iter2.entries(), #[trigger] idx[i], tenant),   //#all_owned
+                forall|i: int| 0 <= i < idx.len() ==> (#[trigger] nodes@[i]).id.0 == decode_bytes::<StoredNode>(iter2.entries()[idx[i]].1).id,   //#all_decoded
             decreases iter2.entries().len() - iter2.pos(),
 //@after "if !key.starts_with(prefix.as_bytes())"
             proof {
@@ -180,26 +187,36 @@ impl PersistentStorage {
                 assert(key@.subrange(0, p.len() as int) =~= p);
                 assert(starts_with(key@, p));
             }
+//@after "nodes.push("
+            proof { idx = idx.push(iter2.pos() - 1); }
+//@before "Ok(nodes)"
+        proof {
+            let es = db_entries(&self.db, "nodes", prefix_of(tenant_bytes(tenant)));
+            assert forall|i: int| 0 <= i < nodes@.len() implies Self::node_has_source(es, tenant, (#[trigger] nodes@[i]).id.0) by {
+                let j = idx[i];
+                assert(Self::owned_by(es, j, tenant) && nodes@[i].id.0 == decode_bytes::<StoredNode>(es[j].1).id);
+            }
+        }
 //@end
 
 //@fn PersistentStorage::scan_edges ret=r
 //@ensures
         r matches Ok(edges) ==> forall|i: int| 0 <= i < edges@.len() ==>
-            #[trigger] Self::owned_by(db_entries(&self.db, "edges", prefix_of(tenant_bytes(tenant))), i, tenant),    //#only_entries_with_the_tenant_prefix
-        r matches Ok(edges) ==> forall|i: int| 0 <= i < edges@.len() ==>
-            (#[trigger] edges@[i]).id.0 == decode_bytes::<StoredEdge>(db_entries(&self.db, "edges", prefix_of(tenant_bytes(tenant)))[i].1).id,    //#decoded_from_those_entries
-//@replace "format!(\"{}:\", tenant)" => "scan_prefix(tenant)" :: format! has no byte-level meaning in Verus; the wrapper's body is the same expression, its result (tenant bytes then ':') is assumed here and checked by Kani
+            Self::edge_has_source(db_entries(&self.db, "edges", prefix_of(tenant_bytes(tenant))), tenant, (#[trigger] edges@[i]).id.0),    //#only_entries_with_the_tenant_prefix
+//@replace "format!(\"{}:\", tenant)" => "scan_prefix(tenant)" :: format! has no byte-level meaning in Verus; the wrapper's body is the same expression, its result (tenant bytes then ':') is assumed (A-STR)
 //@replace "let mut edges = Vec::new();" => "let mut edges: Vec<Edge> = Vec::new();" :: type annotation only (the invariant mentions the element type before the first push fixes it)
 //@closure ok_or_else#1 () -> (e: StorageError)
+//@before "let iter = self.db.prefix_iterator_cf"
+        let ghost mut idx: Seq<int> = Seq::empty();   // ghost: which entry each returned element was decoded from
 //@loop 1 desugar=iter2
-            invariant_except_break
-                edges@.len() == iter2.pos(),                                                                          //#one_edge_per_consumed_entry
             invariant
                 iter2.entries() == db_entries(&self.db, "edges", prefix_of(tenant_bytes(tenant))),                  //#iter_fixed
                 prefix.as_bytes_spec() == prefix_of(tenant_bytes(tenant)),                                           //#prefix_fixed
-                edges@.len() <= iter2.pos() && iter2.pos() <= iter2.entries().len(),                                  //#at_most_one_edge_per_entry
-                forall|i: int| 0 <= i < edges@.len() ==> #[trigger] Self::owned_by(iter2.entries(), i, tenant),     //#all_owned
-                forall|i: int| 0 <= i < edges@.len() ==> (#[trigger] edges@[i]).id.0 == decode_bytes::<StoredEdge>(iter2.entries()[i].1).id,   //#all_decoded
+                iter2.pos() <= iter2.entries().len(),                                                                 //#pos_in_range
+                idx.len() == edges@.len(),                                                                         //#one_witness_per_element
+                forall|i: int| 0 <= i < idx.len() ==> 0 <= #[trigger] idx[i] < iter2.pos(),                           //#witness_consumed
+                forall|i: int| 0 <= i < idx.len() ==> Self::owned_by(iter2.entries(), #[trigger] idx[i], tenant),   //#all_owned
+                forall|i: int| 0 <= i < idx.len() ==> (#[trigger] edges@[i]).id.0 == decode_bytes::<StoredEdge>(iter2.entries()[idx[i]].1).id,   //#all_decoded
             decreases iter2.entries().len() - iter2.pos(),
 //@after "if !key.starts_with(prefix.as_bytes())"
             proof {
@@ -207,6 +224,16 @@ impl PersistentStorage {
                 assert(key@.subrange(0, p.len() as int) =~= p);
                 assert(starts_with(key@, p));
             }
+//@after "edges.push("
+            proof { idx = idx.push(iter2.pos() - 1); }
+//@before "Ok(edges)"
+        proof {
+            let es = db_entries(&self.db, "edges", prefix_of(tenant_bytes(tenant)));
+            assert forall|i: int| 0 <= i < edges@.len() implies Self::edge_has_source(es, tenant, (#[trigger] edges@[i]).id.0) by {
+                let j = idx[i];
+                assert(Self::owned_by(es, j, tenant) && edges@[i].id.0 == decode_bytes::<StoredEdge>(es[j].1).id);
+            }
+        }
 //@end
 }
 
